@@ -255,7 +255,7 @@ class Var:
                             # double quote.
                             pass
                         else:
-                            val = special_formats[fmt](val, name, md)
+                            val = self._special_format(fmt, val, name, md)
                     elif fmt == '':
                         val = ''
                     else:
@@ -284,7 +284,7 @@ class Var:
                         # double quote.
                         pass
                     else:
-                        val = special_formats[fmt](val, name, md)
+                        val = self._special_format(fmt, val, name, md)
                 elif fmt == '':
                     val = ''
                 else:
@@ -313,7 +313,10 @@ class Var:
             if f.__name__ == 'html_quote' and isinstance(val, TaintedString):
                 # TaintedStrings will be quoted by default, don't double quote.
                 continue
-            val = f(val)
+            if f.__name__ == 'html_quote':
+                val = f(val, encoding=self.encoding)
+            else:
+                val = f(val)
 
         if 'size' in args:
             size = args['size']
@@ -340,6 +343,11 @@ class Var:
         return val
 
     __call__ = render
+
+    def _special_format(self, fmt, val, name, md):
+        if fmt == 'html-quote':
+            return html_quote(val, name, md, encoding=self.encoding)
+        return special_formats[fmt](val, name, md)
 
 
 class Call:
